@@ -267,6 +267,141 @@ fn check_small(nsym: usize, dag: usize, conj: usize, extras: usize, recs: &[Tags
     local.evals += (symbols.len() * symbols.len() + recs.len() * symbols.len()) as u64;
 }
 
+// ------------------------------------------------------------------------------ shaped taxonomies
+
+fn def_row(name: &str, is_: &[String]) -> Tags {
+    mk_tags(&[("def", V::Sym(name.into())), ("is", is_list(is_))])
+}
+
+/// Taxonomies that four symbols cannot express: long chains, many direct supertypes, stacked and
+/// asymmetric diamonds (path counts that grow exponentially), layered lattices, conjuncts with 3
+/// and 4 parts and overlapping conjuncts, names that are prefixes of each other.
+pub fn shaped_namespaces() -> Vec<(String, Vec<Tags>)> {
+    let mut out: Vec<(String, Vec<Tags>)> = vec![];
+    let s = |x: String| x;
+    // chains
+    for n in (1..=40).chain([64, 100, 300]) {
+        let rows: Vec<Tags> = (0..n).map(|i| def_row(&format!("c{i}"), &if i == 0 { vec![] } else { vec![format!("c{}", i - 1)] })).collect();
+        out.push((format!("chain{n}"), rows));
+    }
+    // one def with n direct supertypes that each have a supertype of their own
+    for n in (2..=40).chain([64, 100]) {
+        let mut rows = vec![def_row("root", &[]), def_row("other", &[])];
+        for i in 0..n {
+            rows.push(def_row(&format!("m{i}"), &[if i % 2 == 0 { s("root".into()) } else { s("other".into()) }]));
+        }
+        rows.push(def_row("top", &(0..n).map(|i| format!("m{i}")).collect::<Vec<_>>()));
+        out.push((format!("fan{n}"), rows));
+    }
+    // k stacked diamonds, with an independent branch listed first / last / absent in the top def
+    for k in 1..=8usize {
+        for branch in 0..3 {
+            let mut rows = vec![def_row("j0", &[]), def_row("y", &[]), def_row("x", &["y".to_string()])];
+            for i in 1..=k {
+                rows.push(def_row(&format!("a{i}"), &[format!("j{}", i - 1)]));
+                rows.push(def_row(&format!("b{i}"), &[format!("j{}", i - 1)]));
+                let mut is_ = vec![format!("a{i}"), format!("b{i}")];
+                if i == k {
+                    match branch {
+                        1 => is_.insert(0, "x".into()),
+                        2 => is_.push("x".into()),
+                        _ => {}
+                    }
+                }
+                rows.push(def_row(&format!("j{i}"), &is_));
+            }
+            out.push((format!("diamonds{k}:{branch}"), rows));
+        }
+    }
+    // layered lattices: every def of a layer is every def of the layer below
+    for w in 2..=3usize {
+        for h in 1..=6usize {
+            let mut rows = vec![];
+            for layer in 0..=h {
+                for i in 0..w {
+                    let is_ = if layer == 0 { vec![] } else { (0..w).map(|j| format!("l{}x{j}", layer - 1)).collect() };
+                    rows.push(def_row(&format!("l{layer}x{i}"), &is_));
+                }
+            }
+            out.push((format!("lattice{w}x{h}"), rows));
+        }
+    }
+    // diamonds whose arms have different lengths
+    for l1 in 1..=6usize {
+        for l2 in 1..=6usize {
+            let mut rows = vec![def_row("base", &[])];
+            for (arm, len) in [("p", l1), ("q", l2)] {
+                for i in 0..len {
+                    rows.push(def_row(&format!("{arm}{i}"), &[if i == 0 { s("base".into()) } else { format!("{arm}{}", i - 1) }]));
+                }
+            }
+            rows.push(def_row("top", &[format!("p{}", l1 - 1), format!("q{}", l2 - 1)]));
+            out.push((format!("arms{l1}x{l2}"), rows));
+        }
+    }
+    // conjuncts of 2, 3 and 4 parts, overlapping, over markers that are subtypes of each other;
+    // names that are prefixes of one another
+    for variant in 0..16usize {
+        let mut rows = vec![def_row("marker", &[]), def_row("entity", &["marker".to_string()])];
+        for (i, m) in ["a", "b", "c", "d", "ab", "hot", "hotWater"].iter().enumerate() {
+            let is_ = if *m == "b" && variant & 1 != 0 { vec![s("a".into())] } else { vec![s("marker".into())] };
+            let _ = i;
+            rows.push(def_row(m, &is_));
+        }
+        let conjs: Vec<(&str, &str)> = vec![("a-b", "entity"), ("b-c", "entity"), ("a-b-c", "a-b"), ("a-b-c-d", "a-b-c"), ("hot-hotWater", "entity"), ("ab-c", "entity")];
+        for (ci, (name, sup)) in conjs.iter().enumerate() {
+            if variant & (2 << (ci % 3)) != 0 || ci >= 3 {
+                rows.push(def_row(name, &[sup.to_string()]));
+            }
+        }
+        out.push((format!("conjuncts{variant}"), rows));
+    }
+    out
+}
+
+fn check_shaped(name: &str, rows: &[Tags], local: &mut Local) {
+    let r = RefNs::make(rows);
+    let mut symbols: Vec<String> = r.is_.keys().cloned().collect();
+    symbols.push("zz".into());
+    local.eval();
+    local.nontrivial(name);
+    local.count("shaped-namespaces");
+    let case = json!({"shaped": name});
+    let res = guarded(|| {
+        with_ns(rows, |ns| -> Verdict {
+            check_queries(ns, &r, &symbols, symbols.len() <= 110)?;
+            // fits from the deepest defs to everything even for the big ones
+            for a in symbols.iter().rev().take(3) {
+                for b in &symbols {
+                    let got = ns.fits(&sym(a), &sym(b));
+                    if got != r.fits(a, b) {
+                        return Err(("fits".into(), format!("fits({a}, {b}) = {got}")));
+                    }
+                }
+            }
+            // records: every single marker; every pair and every subset of the first 6 markers
+            let markers: Vec<&String> = symbols.iter().filter(|s| !s.contains('-') && r.defined(s)).collect();
+            let mut recs: Vec<Tags> = markers.iter().map(|m| mk_tags(&[(m.as_str(), V::Marker)])).collect();
+            let core: Vec<&String> = markers.iter().copied().filter(|m| ["a", "b", "c", "d", "ab", "hot", "hotWater"].contains(&m.as_str())).collect();
+            for mask in 0u32..(1 << core.len().min(7)) {
+                let t: Vec<(&str, V)> = core.iter().enumerate().filter(|(i, _)| mask & (1 << i) != 0).map(|(i, m)| (m.as_str(), if mask & 0x40 != 0 && i == 0 { V::str("v") } else { V::Marker })).collect();
+                recs.push(mk_tags(&t));
+            }
+            let probe: Vec<String> = symbols.iter().rev().take(12).cloned().chain(symbols.iter().take(6).cloned()).collect();
+            for rec in &recs {
+                check_reflect(ns, &r, rec, &probe)?;
+            }
+            Ok(())
+        })
+    });
+    match res {
+        Ok(Ok(())) => local.outcome("ok"),
+        Ok(Err((q, d))) => local.fail(&format!("{q}:shaped:{}", name.trim_end_matches(|c: char| c.is_ascii_digit() || c == ':' || c == 'x')), case, d),
+        Err(p) => local.fail(&format!("panic:shaped:{}", name.trim_end_matches(|c: char| c.is_ascii_digit() || c == ':' || c == 'x')), case, p),
+    }
+    local.transitions += (symbols.len() * 8) as u64;
+}
+
 // ------------------------------------------------------------------------------ real database
 
 pub fn real_rows() -> Vec<Tags> {
@@ -285,7 +420,7 @@ pub fn real_rows() -> Vec<Tags> {
 
 pub fn run(tier: Tier) -> i32 {
     let mut run = Run::new("C13", tier, "model_checking");
-    run.rule = "every defs grid over symbols s0..s(n-1) (n = 3 quick, 4 thorough) where is(si) ranges over all subsets of {s0..s(i-1), undefined zz} (all DAGs incl. diamonds and multiple inheritance), crossed with every assignment absent / is[] / is[s_last] / is[zz] to the conjuncts s0-s1, s1-s2, s0-s1-s2 and the 8 combinations of: feature key f:k, a `choice` root, rows without def / with non-Symbol def and non-Symbol `is` entries; for each namespace every query (supertypes_of, all_supertypes_of, subtypes_of, all_subtypes_of, inheritance, choices_for, has_subtype, has/get, conjuncts_defs, fits on all ordered pairs) on 12+ symbol names incl. undefined ones, and reflect + Reflection::fits + the filter `^sym` on all 243 records over {s0..s3, zz} x {absent, Marker, \"v\"}. Plus tests/defs/defs.zinc: all symbols for the unary queries, all ordered pairs for fits (quick: a 300-symbol prefix), reflect on every 1- and 2-tag marker record of a tag core and on the tag set of every conjunct. Oracle: adjacency map built from the `is` lists (answers compared as sets of def names). states = namespaces, transitions = queries".into();
+    run.rule = "every defs grid over symbols s0..s(n-1) (n = 3 quick, 4 thorough) where is(si) ranges over all subsets of {s0..s(i-1), undefined zz} (all DAGs incl. diamonds and multiple inheritance), crossed with every assignment absent / is[] / is[s_last] / is[zz] to the conjuncts s0-s1, s1-s2, s0-s1-s2 and the 8 combinations of: feature key f:k, a `choice` root, rows without def / with non-Symbol def and non-Symbol `is` entries; for each namespace every query (supertypes_of, all_supertypes_of, subtypes_of, all_subtypes_of, inheritance, choices_for, has_subtype, has/get, conjuncts_defs, fits on all ordered pairs) on 12+ symbol names incl. undefined ones, and reflect + Reflection::fits + the filter `^sym` on all 243 records over {s0..s3, zz} x {absent, Marker, \"v\"}. Plus ~190 shaped taxonomies that four symbols cannot express (chains of every length 1..40, 64, 100, 300; one def with 2..40, 64, 100 direct supertypes; 1..8 stacked diamonds with an independent branch listed first / last / absent; layered lattices 2-3 wide and 1-6 high; diamonds with arms of lengths 1..6 x 1..6; 2-, 3- and 4-part and overlapping conjuncts over markers that are subtypes of each other and names that are prefixes of one another): all queries on all symbols, fits on all pairs, reflect on every single-marker record and every subset of a 7-marker core. Plus tests/defs/defs.zinc: all symbols for the unary queries, all ordered pairs for fits (quick: a 300-symbol prefix), reflect on every 1- and 2-tag marker record of a tag core and on the tag set of every conjunct. Oracle: adjacency map built from the `is` lists (answers compared as sets of def names). states = namespaces, transitions = queries".into();
     run.assume("cyclic `is` graphs are outside the statement and not generated");
     run.assume("answers are compared as sets of def names (the statement does not fix an order)");
     crate::engine::quiet_panics();
@@ -304,6 +439,16 @@ pub fn run(tier: Tier) -> i32 {
         local.transitions += 1;
     });
     run.absorb(l);
+
+    // shaped taxonomies
+    let shaped = shaped_namespaces();
+    run.note("shaped_namespaces", json!(shaped.len()));
+    let l = crate::engine::par_for_stack(shaped.len(), 256 << 20, |i, local| {
+        check_shaped(&shaped[i].0, &shaped[i].1, local);
+        local.states += 1;
+    });
+    run.absorb(l);
+    run.require(run.counter("shaped-namespaces") > 150, "shaped taxonomies missing");
 
     // real database
     let rows = real_rows();
@@ -379,6 +524,18 @@ pub fn run(tier: Tier) -> i32 {
 }
 
 pub fn replay(case: &J) -> Verdict {
+    if let Some(name) = case["shaped"].as_str() {
+        let all = shaped_namespaces();
+        let Some((n, rows)) = all.iter().find(|(n, _)| n == name) else {
+            return Err(("replay-shape-unknown".into(), name.to_string()));
+        };
+        let mut l = Local::new();
+        check_shaped(n, rows, &mut l);
+        return match l.fails.values().next() {
+            Some(f) => Err((f.sig.clone(), f.detail.clone())),
+            None => Ok(()),
+        };
+    }
     if let Some(a) = case.get("small").and_then(|x| x.as_array()) {
         let p: Vec<usize> = a.iter().map(|x| x.as_u64().unwrap() as usize).collect();
         let rows = small_namespace(p[0], p[1], p[2], p[3]);
